@@ -1,6 +1,7 @@
 import Hub.Proofs.ListPaging
 import Hub.Proofs.StoreInv
 import Hub.Proofs.SortPerm
+import Hub.Proofs.Lookup
 import Hub.Generated.Layout
 /-!
 # C01 — the latest view equals the last stored version of every entity
@@ -160,6 +161,41 @@ theorem listing_paged {db : DB} {S : Spec} (h : Inv db S) (ds : Nat) (cs : List 
     (Hub.ListPaging.pages db ds none (cs ++ [0])).flatten = (listAll db ds).map (·.2) := by
   have := Hub.ListPaging.pages_tile db ds (listing_incr h ds) cs 0 (Nat.zero_le _) hcs
   simpa [Hub.ListPaging.tokAt] using this
+
+/-! ## lookups: the per-dataset partials of `GetEntityAtPointInTime…` -/
+
+/-- **T-C01-6 (what a lookup merges)**: for every store state with unique version keys (`Inv` gives that), every
+entity, instant and scope, the live partials a lookup merges are exactly the versions `p` that (1) are visible —
+of this entity, recorded at or before the instant, in a dataset that is not deleted and in scope —, (2) are not
+deleted and (3) are the newest visible version of their dataset. So a scoped lookup returns the newest version of
+that dataset at the instant, an unscoped one merges the newest live version of every dataset, and a version that was
+superseded or deleted by then contributes nothing. -/
+theorem lookup_partials_spec (db : DB) (hk : (db.versions.map (·.1)).Nodup) (rid at_ : Nat) (scope : List Nat) (p : VKey × Ent) :
+    p ∈ (partialsAt db rid at_ scope).1 ↔
+      p ∈ visibleVersions db rid at_ scope ∧ p.2.deleted = false
+      ∧ ∀ q ∈ visibleVersions db rid at_ scope, q.1.ds = p.1.ds → p.1.lt q.1 = false := by
+  have hs := Hub.Lookup.visible_sorted db rid at_ scope
+  unfold partialsAt
+  simp only [List.mem_filter, Bool.not_eq_true']
+  constructor
+  · rintro ⟨hp, hd⟩
+    exact ⟨Hub.Lookup.mem_lastPerDs _ p hp, hd, Hub.Lookup.lastPerDs_newest rid _ hs p hp⟩
+  · rintro ⟨hv, hd, hnew⟩
+    obtain ⟨p', hp', hds⟩ := Hub.Lookup.lastPerDs_complete _ p hv
+    have hv' := Hub.Lookup.mem_lastPerDs _ p' hp'
+    have h1 := Hub.Lookup.lastPerDs_newest rid _ hs p' hp' p hv hds.symm
+    have h2 := hnew p' hv' hds
+    have hkey : p'.1 = p.1 := Hub.Lookup.lt_total _ _ h1 h2
+    have := Hub.Lookup.visible_key_unique db hk rid at_ scope p' p hv' hv hkey
+    exact ⟨this ▸ hp', hd⟩
+
+/-- the invariant of the write path provides the hypothesis of `lookup_partials_spec`. -/
+theorem lookup_partials_of_inv {db : DB} {S : Spec} (h : Inv db S) : (db.versions.map (·.1)).Nodup := h.v.nodup
+
+-- non-vacuity: entity 1 in datasets 2 and 3; at instant 25 the lookup merges version 20 of dataset 2 and nothing of dataset 3 (deleted there)
+example : let a : Ent := ⟨1, false, [], "1"⟩; let b : Ent := ⟨1, false, [], "2"⟩; let d : Ent := ⟨1, true, [], "2"⟩
+    let db := storeBatch (storeBatch (storeBatch (storeBatch {} 2 10 [a]) 2 20 [b]) 3 15 [a]) 3 22 [d]
+    (partialsAt db 1 25 []).1.map (·.1.t) = [20] ∧ (partialsAt db 1 21 []).1.map (·.1.t) = [20, 15] ∧ (partialsAt db 1 25 []).2 = true := by decide
 
 /-! ## tie to the Go source (regenerated facts) -/
 open Hub.Facts.Layout in
